@@ -395,6 +395,22 @@ theorem foldl_recv (c : Conn S R) (halive : c.alive = true) (hacc : split1 c.acc
       refine ⟨trivial, trivial, trivial, ?_⟩
       intro h; exact absurd h hal
 
+theorem trace_getElem (c : Conn S R) (cs : List Bytes) (i : Nat) (h : i < cs.length) :
+    (Conn.trace step c cs)[i]? = some ((cs.take (i + 1)).foldl (Conn.recv step) c) := by
+  induction cs generalizing c i with
+  | nil => simp at h
+  | cons x cs ih =>
+    cases i with
+    | zero => simp [Conn.trace]
+    | succ i =>
+      simp only [Conn.trace, List.getElem?_cons_succ, List.take_succ_cons, List.foldl_cons]
+      exact ih _ i (by simpa using h)
+
+theorem trace_length (c : Conn S R) (cs : List Bytes) : (Conn.trace step c cs).length = cs.length := by
+  induction cs generalizing c with
+  | nil => rfl
+  | cons x cs ih => simp [Conn.trace, ih]
+
 end
 
 /-! ### counting complete frames -/
